@@ -13,6 +13,8 @@ def cmps_choice(rng):
         [ModelFieldsEquals()],
         [ModelFieldsPercentMatch(.5)],
         [ModelFieldsNumberMatch(3)],
+        [ModelFieldsNumberMatch()],            # `--merge number`: models with fewer than 10 shared keys stay apart
+        [ModelFieldsNumberMatch(25)],
     ])
 
 
@@ -45,6 +47,8 @@ def gen_inputs(rng, styled_p=0.5, out_p=0.0, max_models=2):
         return [("Root", [gen.gen_empty_vs_concrete_merge(rng)])]
     if r < 0.66:
         return [("Root", [gen.gen_one_pass_residue(rng)])]
+    if r < 0.70:
+        return [("Root", [gen.gen_identical_siblings(rng)])]
     n = rng.choice([1] * 3 + [2] * (max_models > 1))
     kp = gen.key_pool(rng, styled_p, out_p)
     out = []
